@@ -18,6 +18,8 @@ from core import enc_str
 PATTERNS = ["a", "b", "ab", "a+", "[ab]+", "b|c", "ab?", " ", "a b", "^a", "b$", r"\w+", "x", "zz", "(a)(b)", "a.", r"\s", "[^ ]+", "a{2}", "é", "^ ?a", r"\bb",
             "a$|b", "(?<=a)b", "c ", r"\s+", r"^\w+", r"\w+$", r"^\S+|\S+$", "^[abc]+", "[ab]+$"]
 NEWS = ["", "X", "yy", "a", "b a", "-", "é"]
+# "Python regular expression syntax applies": the replacement is a template of re.sub (whole-match reference, escaped backslash, escapes)
+NEWS_TEMPLATE = [r"[\g<0>]", r"\g<0>\g<0>", r"a\\b", r"x\ny", r"<\g<0>", r"\\"]
 NEWS_FMT = ["p  q", "x\ty", "l1\nl2", "  lead", "trail  ", "u \t\n v", "one two", "Z", "", " ", " w", "w "]
 # replacements that leave at most single blanks (at an edge of the replaced match): the encoding of the result then depends on WHERE the match was
 NEWS_EDGE = ["", " ", " w", "w ", " w ", "u v"]
@@ -170,7 +172,7 @@ def run(chk: core.Check) -> None:
         "layouts: random inline forests (text, nested spans / links, text:s, tab, line-break; a fifth with raw white-space runs; one in eight is a text:h) x targets "
         "{the paragraph / heading, inner spans / links with a tail} x 31 patterns (literals, classes, repetitions, alternations, anchors, look-behind, groups; none "
         "matches the empty string) + one pattern derived from the layout (first / last word of one of its text nodes, anchored at the node's edge) x "
-        "replacement strings (plain; with blanks, tabs, newlines for formatted=True; for the derived pattern mostly '', ' ', ' w', 'w ' so that single blanks end "
+        "replacement strings (plain; templates of re.sub with a reference to the whole match, an escaped backslash, an escape sequence; with blanks, tabs, newlines for formatted=True; for the derived pattern mostly '', ' ', ' w', 'w ' so that single blanks end "
         "up at the edge of a paragraph / heading / span). formatted=True: every container hosting a match is compared with a fresh Paragraph / Header / Span of "
         "its resulting text (when it holds text and text:s only), read back with the ODF white-space rules, and must not begin / end with a raw blank. non-trivial = more than one text node or a white-space element; distinct by "
         "(layout xml, target, pattern, replacement)"
@@ -238,7 +240,8 @@ def run(chk: core.Check) -> None:
                 for s_, e_, g_ in ta:
                     reqs.append((f"rp textat {s_} {'N' if e_ is None else e_} {enc_str(own)}", f"ok {enc_str(g_)}", {**case, "text_at": (s_, e_)}))
                 # ---------------- replace -------------------------------------------------------------
-                for new, formatted in [(rng.choice(NEWS), False), (rng.choice(NEWS_EDGE if derived and rng.random() < 0.7 else NEWS_FMT), True)]:
+                for new, formatted in [(rng.choice(NEWS), False), (rng.choice(NEWS_EDGE if derived and rng.random() < 0.7 else NEWS_FMT), True),
+                                       (rng.choice(NEWS_TEMPLATE), rng.random() < 0.3)]:
                     p = Element.from_tag(xml0)
                     el = dict(targets(p))[tname]
                     t0 = snapshot(el, labels, other)
@@ -257,7 +260,10 @@ def run(chk: core.Check) -> None:
                     if n != want_count:
                         chk.fail({**case, "clause": "count", "want": want_count, "got": n}, "replace(pattern, new) does not return the number of replacements")
                         continue
-                    want_nodes = [rx.sub(new.replace("\\", "\\\\"), x) for x in nodes]
+                    want_nodes = [rx.sub(new, x) for x in nodes]
+                    # what the template stands for when it does not refer to the match (the model's replacement is a constant string)
+                    const_new = None if "\\g" in new else re.sub("q", new, "q")
+                    chk.count("replacement", "template with a reference to the match" if const_new is None else "template with escapes" if "\\" in new else "plain")
                     if not formatted:
                         got_nodes = pt.text_nodes(t1)
                         # lxml keeps "" text nodes: compare modulo empty nodes
@@ -268,7 +274,8 @@ def run(chk: core.Check) -> None:
                         if out0 != outside_text(p, el, labels, other):
                             chk.fail({**case, "clause": "neighbouring-text"}, "replace on an inner element changed text outside it")
                             continue
-                        reqs.append((f"rp replace {enc_str(new)} {spans_w} | {pt.enc_tokens(t0[1:-1])}", drop_empty("ok " + pt.enc_tokens(t1[1:-1])), case))
+                        if const_new is not None:
+                            reqs.append((f"rp replace {enc_str(const_new)} {spans_w} | {pt.enc_tokens(t0[1:-1])}", drop_empty("ok " + pt.enc_tokens(t1[1:-1])), case))
                     else:
                         # expected characters, white-space elements expanded, in order
                         it = iter(want_nodes)
@@ -291,7 +298,7 @@ def run(chk: core.Check) -> None:
                             after = ws_items(h)
                             if before is None or after is None:
                                 continue
-                            sub = [(k, rx.sub(new.replace("\\", "\\\\"), v) if k == "T" else v) for k, v in before]
+                            sub = [(k, rx.sub(new, v) if k == "T" else v) for k, v in before]
                             sub = [(k, v) for k, v in sub if not (k == "T" and v == "")]
                             chk.count("rebuild vs model", "containers sent")
                             reqs.append(("ws rebuild " + enc_ws_items(sub), "ok " + enc_ws_items(after), {**case, "clause": "rebuild-model", "before_rebuild": [list(x) for x in sub]}))
